@@ -518,6 +518,10 @@ def correspondence(c, mp, r):
     if k == "skip":
         if mp["tokdict"] != r["tokdict"]:
             return "token dictionary: model %s, implementation %s" % (mp["tokdict"], r["tokdict"])
+        n = len(r["tokdict"])
+        if len(r["radii"]) - 1 != n or n == 0 or any(not (0 <= i < n) for _, i in r["tokdict"]):
+            return ("hypothesis sg_wf of C06_skipgram / C01_skipgram is not met by the fitted estimator: %d window sizes, "
+                    "token dictionary %s" % (len(r["radii"]), r["tokdict"]))
         if c["_radii"] != r["radii"]:
             return "window radii: expected %s, implementation %s" % (c["_radii"], r["radii"])
         if mp["mask"] != r["mask"]:
@@ -715,7 +719,7 @@ def c01_cases_and_check(ctx, n=None, replay_case=None):
     random fitted models, X' with unseen tokens / labels, empty items, items shorter than n, X' missing the highest fitted
     column / row.  Reports through ctx; returns the statistics."""
     if n is None:
-        n = 120 if ctx.quick else 1500
+        n = 300 if ctx.quick else 8000
     cases = [replay_case] if replay_case else [gen_case(ctx.rng, (0.3, 0.35, 0.3, 0.05)) for _ in range(n)]
     st = process(ctx, cases, None, "C01nse", do_oracle=False, do_c01=True)
     ctx.coverage["c01_ngram_skip_edge"] = {"cases": st["c01"], "correspondence_cases": st["corr"],
@@ -725,7 +729,7 @@ def c01_cases_and_check(ctx, n=None, replay_case=None):
 
 def run(ctx, replay=None):
     C.run_gate(ctx, extra_props=("C01_ngram_skip_edge",))
-    n = 330 if ctx.quick else 5000
+    n = 800 if ctx.quick else 25000
     if replay:
         cases = [replay["case"]]
     else:
